@@ -6,7 +6,10 @@
 package align
 
 import (
+	"fmt"
+	"reflect"
 	"sort"
+	"strings"
 	"unsafe"
 )
 
@@ -35,6 +38,10 @@ type VerifState struct {
 	Length   int               // cached length (align only; 0 for a seqbag)
 	Alphabet int
 	Policy   int
+	// Extra renders every field of the container structs that this file does not know by name (a cache,
+	// a memo, a scratch buffer added by a change): hidden state takes part in the canonical state key, so
+	// that two containers which differ only there are not merged by the search
+	Extra string
 }
 
 func verifSeqbagOf(sb SeqBag) (*seqbag, *align) {
@@ -91,5 +98,102 @@ func VerifDump(sb SeqBag) *VerifState {
 		st.Index = append(st.Index, e)
 	}
 	sort.Slice(st.Index, func(i, j int) bool { return st.Index[i].Key < st.Index[j].Key })
+	var sb2 strings.Builder
+	verifUnknownFields(&sb2, reflect.ValueOf(b).Elem(), map[string]bool{"seqs": true, "seqmap": true, "ignoreidentical": true, "alphabet": true}, pos)
+	if a != nil {
+		verifUnknownFields(&sb2, reflect.ValueOf(a).Elem(), map[string]bool{"seqbag": true, "length": true}, pos)
+	}
+	st.Extra = sb2.String()
 	return st
+}
+
+// verifUnknownFields renders the fields of v that are not in known.
+func verifUnknownFields(w *strings.Builder, v reflect.Value, known map[string]bool, pos map[*seq]int) {
+	t := v.Type()
+	for i := 0; i < t.NumField(); i++ {
+		if known[t.Field(i).Name] {
+			continue
+		}
+		fmt.Fprintf(w, "%s=", t.Field(i).Name)
+		verifRender(w, v.Field(i), pos, 0)
+		w.WriteByte(';')
+	}
+}
+
+// verifRender writes a canonical form of a value reached through unexported fields (no Interface()
+// calls): maps sorted by rendered key, pointers to rows as row positions, other pointers followed.
+func verifRender(w *strings.Builder, v reflect.Value, pos map[*seq]int, depth int) {
+	if depth > 6 {
+		w.WriteString("...")
+		return
+	}
+	switch v.Kind() {
+	case reflect.Bool:
+		fmt.Fprint(w, v.Bool())
+	case reflect.Int, reflect.Int8, reflect.Int16, reflect.Int32, reflect.Int64:
+		fmt.Fprint(w, v.Int())
+	case reflect.Uint, reflect.Uint8, reflect.Uint16, reflect.Uint32, reflect.Uint64, reflect.Uintptr:
+		fmt.Fprint(w, v.Uint())
+	case reflect.Float32, reflect.Float64:
+		fmt.Fprintf(w, "%x", v.Float())
+	case reflect.String:
+		fmt.Fprintf(w, "%q", v.String())
+	case reflect.Slice, reflect.Array:
+		if v.Kind() == reflect.Slice && v.IsNil() {
+			w.WriteString("nil")
+			return
+		}
+		w.WriteByte('[')
+		for i := 0; i < v.Len(); i++ {
+			verifRender(w, v.Index(i), pos, depth+1)
+			w.WriteByte(',')
+		}
+		w.WriteByte(']')
+	case reflect.Map:
+		if v.IsNil() {
+			w.WriteString("nil")
+			return
+		}
+		var ents []string
+		it := v.MapRange()
+		for it.Next() {
+			var e strings.Builder
+			verifRender(&e, it.Key(), pos, depth+1)
+			e.WriteByte(':')
+			verifRender(&e, it.Value(), pos, depth+1)
+			ents = append(ents, e.String())
+		}
+		sort.Strings(ents)
+		w.WriteString("{" + strings.Join(ents, ",") + "}")
+	case reflect.Ptr:
+		if v.IsNil() {
+			w.WriteString("nil")
+			return
+		}
+		if v.Type() == reflect.TypeOf((*seq)(nil)) {
+			if p, ok := pos[(*seq)(unsafe.Pointer(v.Pointer()))]; ok {
+				fmt.Fprintf(w, "row%d", p)
+				return
+			}
+		}
+		w.WriteByte('&')
+		verifRender(w, v.Elem(), pos, depth+1)
+	case reflect.Struct:
+		w.WriteByte('{')
+		for i := 0; i < v.NumField(); i++ {
+			fmt.Fprintf(w, "%s=", v.Type().Field(i).Name)
+			verifRender(w, v.Field(i), pos, depth+1)
+			w.WriteByte(',')
+		}
+		w.WriteByte('}')
+	case reflect.Interface:
+		if v.IsNil() {
+			w.WriteString("nil")
+			return
+		}
+		verifRender(w, v.Elem(), pos, depth+1)
+	default:
+		// functions, channels, unsafe pointers: presence only
+		fmt.Fprintf(w, "<%s>", v.Kind())
+	}
 }
